@@ -20,4 +20,19 @@ theorem tree_trace :
     (OllamaVerif.C07.f3Trace Generated.C07.resetEnd).1.length =
       if Generated.C07.resetEnd = maxI32 then 2 else 3 := by decide
 
+/-- The tree's failure path clears the sequence (commit f8dfba76a): the pinned `-1` is gone.  A
+    regression to any other value fails this theorem (and the L2 monitors). -/
+theorem tree_reset_end_repaired : Generated.C07.resetEnd = maxI32 := by decide
+
+/-- **The full-strength invariant applies to the tree.**  For the reset value extracted from the
+    tree's `ShiftCacheSlot`, every configuration of a new runner and every finite history of loads,
+    forwards, successful and failed context shifts, request ends and relocations: the cache stays
+    coherent. -/
+theorem tree_coherent_invariant (parallel ctx batch : Nat) (multi canShift : Bool) (vocab eosMod : Nat)
+    (c : Cache)
+    (hs : OllamaVerif.C07.Steps true
+      (mkServer Generated.C07.resetEnd parallel ctx batch multi canShift vocab eosMod).cache c) :
+    OllamaVerif.C07.Coherent c :=
+  OllamaVerif.C07.coherent_invariant _ c (OllamaVerif.C07.coherent_init ..) tree_reset_end_repaired hs
+
 end OllamaVerif.Tie.C07
